@@ -176,7 +176,8 @@ type deferred struct {
 }
 
 type loopSnapshot struct {
-	dec *Term
+	dec   *Term
+	frame map[string]*Term // attr loopframe fresh: the forgotten arrays as they are at the loop head
 }
 
 func (f *Frame) clone() *Frame {
@@ -307,6 +308,10 @@ func (x *Exec) VerifyFunction(fn *ssa.Function, con *FuncContract) (obls []*Obl,
 	}()
 	if fn.Blocks == nil {
 		return nil, fmt.Errorf("%s: no body", x.rootKey)
+	}
+	if fi := x.finals(); len(fi.errs) > 0 {
+		// a rejected "final" declaration invalidates every proof that might have used it
+		unsupported("%s", strings.Join(fi.errs, "; "))
 	}
 	if con != nil && con.Attrs["local"] != "" {
 		return x.verifyLocal(fn, con)
@@ -594,9 +599,12 @@ func (x *Exec) loopHeader(fr *Frame, st *State, b, pred *ssa.BasicBlock, li *loo
 		x.emit(st, "inv", fmt.Sprintf("%s:%s:rangeindex", lname, kind), g, false, "")
 	}
 	if fromInside {
+		if snap := fr.loopSnap[b.Index]; snap != nil && snap.frame != nil {
+			x.checkEntryFrame(st, lname, snap.frame)
+		}
 		if dec != nil {
 			snap := fr.loopSnap[b.Index]
-			if snap != nil {
+			if snap != nil && snap.dec != nil {
 				d, signed := x.specMeasure(env, dec.E)
 				var g *Term
 				switch {
@@ -621,8 +629,19 @@ func (x *Exec) loopHeader(fr *Frame, st *State, b, pred *ssa.BasicBlock, li *loo
 		fr.vals[phi] = x.freshValue(st, phi.Type(), "loop."+phi.Comment)
 		x.boundValueRefs(st, fr.vals[phi])
 	}
+	var before map[string]*Term
+	if x.loopFrameFresh(fr) {
+		before = make(map[string]*Term, len(st.heap))
+		for n, t := range st.heap {
+			before[n] = t
+		}
+	}
 	x.havocLoopHeap(fr, st, li)
 	x.havocTokens(st)
+	snapNew := &loopSnapshot{}
+	if before != nil {
+		snapNew.frame = x.assumeEntryFrame(st, before)
+	}
 	env = x.loopEnv(fr, st, b)
 	for _, c := range invs {
 		st.Assume(x.specBool(env, c.E))
@@ -632,7 +651,10 @@ func (x *Exec) loopHeader(fr *Frame, st *State, b, pred *ssa.BasicBlock, li *loo
 	}
 	if dec != nil {
 		d, _ := x.specMeasure(env, dec.E)
-		fr.loopSnap[b.Index] = &loopSnapshot{dec: d}
+		snapNew.dec = d
+	}
+	if snapNew.dec != nil || snapNew.frame != nil {
+		fr.loopSnap[b.Index] = snapNew
 	}
 	cst := st.Clone()
 	x.emit(cst, "reach", lname+":head", TTrue, true, "")
@@ -860,7 +882,7 @@ func (x *Exec) havocLoopHeap(fr *Frame, st *State, li *loopInfo) {
 					if !lt.untargeted[pfx] && len(lt.idx[pfx]) > 0 {
 						x.assumeLoopFrame(st, old, st.heap[n], lt.idx[pfx])
 					}
-					if !writesOld[pfx] && old.Sort.Idx.K == KInt {
+					if (!writesOld[pfx] || x.loopFrameFresh(fr)) && old.Sort.Idx.K == KInt {
 						// every store to this array inside the loop targets an object allocated during this
 						// run, so memory that existed at entry still reads as before the loop
 						base := old
@@ -881,7 +903,7 @@ func (x *Exec) havocLoopHeap(fr *Frame, st *State, li *loopInfo) {
 		}
 		x.fresh++
 		for pfx := range names {
-			x.recordLoopHavoc(st, pfx, fmt.Sprintf("l%d", x.fresh), !writesOld[pfx])
+			x.recordLoopHavoc(st, pfx, fmt.Sprintf("l%d", x.fresh), !writesOld[pfx] || x.loopFrameFresh(fr))
 		}
 		if nonLocal {
 			x.bumpEpoch(st)
